@@ -122,25 +122,31 @@ def r22(ctx):
         ctx.ob("R2.2", v == "true", f"{R.owner_name(ctx.prog, b)}/channel_closed/value",
                f"channel_closed is assigned `{v}` (must only ever become true)", where=f"{b.file}:{s.line}",
                sample="channel_closed = true")
+    closed_flag_rule(ctx, "R2.2", fns)
+
+
+def closed_flag_rule(ctx, rid, fns):
+    """each listed signing function writes channel_closed = true on every Ok path, persists afterwards, and the flag is
+    set before the persist call (so the stored state has it)"""
+    ws = R.field_writes(ctx.prog, "EnforcementState", "channel_closed")
     for fn in fns:
         b = ctx.prog.fn(fn)
         fv = fnview(ctx, b)
         wblocks = {bi for (bb, bi, idx, s) in ws if bb is b}
         for sb, ln in R.success_blocks(fv):
             ok = sb not in fv.reach(0, cut_nodes=wblocks)
-            ctx.ob("R2.2", ok and bool(wblocks), f"{fn}/ok-needs/closed-flag",
+            ctx.ob(rid, ok and bool(wblocks), f"{fn}/ok-needs/closed-flag",
                    f"`{fn}` can return a signature without setting channel_closed", where=f"{b.file}:{ln}",
                    sample="Ok return dominated by channel_closed = true")
-        R.must_pass_guard(ctx, "R2.2", b, R.success_blocks(fv), lambda n: n == f"{CH}::persist",
+        R.must_pass_guard(ctx, rid, b, R.success_blocks(fv), lambda n: n == f"{CH}::persist",
                           "Channel::persist", "Ok(signature) return", depth=0)
         # the flag is set before persisting (so the persisted state has it)
-        pe, _ = R.ok_edges_of_calls(fv, lambda n: n == f"{CH}::persist")
         pblocks = [bi for bi, ln, c in R.call_blocks(fv, lambda n: n == f"{CH}::persist")]
         for pb in pblocks:
             ok = pb not in fv.reach(0, cut_nodes=wblocks)
-            ctx.ob("R2.2", ok, f"{fn}/persist-after-flag",
-                   f"`{fn}` persists before channel_closed is set (the stored state would not be closed)",
-                   where=f"{b.file}:{fv.b.term(pb).line}", sample="persist dominated by channel_closed = true")
+            ctx.ob(rid, ok, f"{fn}/persist-after-flag",
+                   f"`{fn}` persists before channel_closed is set (the stored state would not be closed: after a restart the "
+                   f"channel is open again)", where=f"{b.file}:{fv.b.term(pb).line}", sample="persist dominated by channel_closed = true")
 
 
 def r23(ctx):
